@@ -4,6 +4,7 @@ package main
 
 import (
 	"fmt"
+	"os"
 	"go/ast"
 	"go/token"
 	"go/types"
@@ -569,9 +570,23 @@ func (e *Exec) checkCallsite(c *ast.CallExpr, fv Val, args []Val) {
 		}
 		evT = append(evT, t)
 	}
+	coverDone := false
+	if os.Getenv("VERIF_COVER_ALL") != "" {
+		coverDone = true
+		if o := e.oblige(fmt.Sprintf("cover/site %s#%d", site.Name, site.K), "cover", "this call site is reachable", tFalse); o != nil {
+			o.Cover = true
+		}
+	}
 	for i, cs := range e.contract.Calls {
 		if cs.Callee != site.Name || (cs.Ord >= 0 && cs.Ord != site.K) {
 			continue
+		}
+		if !coverDone {
+			coverDone = true
+			// vacuity guard: a call-site clause at an unreachable call site proves nothing
+			if o := e.oblige(fmt.Sprintf("cover/site %s#%d", site.Name, site.K), "cover", "this call site is reachable", tFalse); o != nil {
+				o.Cover = true
+			}
 		}
 		env := e.loopEnv()
 		env.scopePos = c.Pos()
@@ -798,8 +813,14 @@ func (e *Exec) applyContract(fn *types.Func, ct *Contract, f FuncV, args []Val, 
 	envOld.cur, envOld.old, envOld.inOld = old, old, true
 	sets := e.modifiesSets(ct.Modifies, &envOld)
 	if ct.NoFrame {
-		// no frame condition: everything we know about the heap is lost
+		// no frame condition stated: the callee may change any field of the struct types of its own package
+		// (what its code can reach by visibility), any slice or map contents, pointees and ghost state
+		prefix := shortPkg(fn.Pkg().Path()) + "."
 		for k := range e.heapSort {
+			generic := strings.HasPrefix(k, "elems:") || strings.HasPrefix(k, "map#") || strings.HasPrefix(k, "ptr:") || strings.HasPrefix(k, "ghost:")
+			if !generic && !strings.HasPrefix(k, prefix) {
+				continue
+			}
 			if sets[k] == nil {
 				sets[k] = &locSet{}
 			}
